@@ -105,7 +105,7 @@ func init() {
 			}
 			resp, err := w.Pub.Publish(ctx, req)
 			if err != nil {
-				ferr = err
+				viols = append(viols, report.Viol{Property: "C02", Check: "C02/corpus", Rule: "publish-rejected", Text: fmt.Sprintf("a batch of valid JSON payloads was rejected: %v", err), Trace: []string{"batch"}})
 				return
 			}
 			want := map[string]c19Msg{}
